@@ -366,6 +366,7 @@ C15_ISO = "Rl4co/Props/C15/AugIsometry.lean"
 C15_EVAL = "Rl4co/Props/C15/AugEval.lean"
 C15_NORM = "Rl4co/Props/C15/AugNormalize.lean"
 C15_HIST = "Rl4co/Props/C15/AugHistory.lean"
+C15_KEYS = "Rl4co/Props/C15/AugKeys.lean"
 
 register(Unit(
     "C15", "aug_transform", run_transform, drivers=["drv_aug"],
@@ -738,6 +739,94 @@ def _eval_float_envs(ctx):
                     off += Bj
 
 
+def _check_model_steps(ctx):
+    """the MODELS' own val / test paths: the real `POMO.shared_step` and `SymNCO.shared_step` (they call the augmentation
+    themselves), no Trainer: `log_metrics` is replaced by a recorder.  Judged by the Lean objective on the ORIGINAL instances:
+    `max_aug_reward` = objective of `best_aug_actions`, those actions are feasible on the original, and the value is the maximum
+    over all A·S candidate rollouts of the instance; `max_reward[b]` likewise for the multistart-only case."""
+    from rl4co.models.zoo.am import AttentionModelPolicy
+    from rl4co.models.zoo.pomo import POMO
+    from rl4co.models.zoo.symnco import SymNCO, SymNCOPolicy
+
+    for kind in (0, 1, 2):
+        n = ctx.rng.choice([4, 5])
+        B = ctx.rng.choice([2, 3])
+        env = _make_env(kind, n)
+        insts = _make_insts(ctx, kind, n, B)
+        batch = ac.to_td(insts)
+        for mname in ("POMO", "SymNCO"):
+            for A, fn in ((8, "dihedral8"), (2, "symmetric")):
+                for phase in (("val",) if A == 2 else ("test",)):
+                    seed = ctx.rng.randrange(1 << 30)
+                    witness = {"model": mname, "env": ENVN[kind], "phase": phase, "num_augment": A, "augment_fn": fn, "num_starts": n,
+                               "torch_seed": seed, "instances": insts}
+                    cap = {}
+                    try:
+                        torch.manual_seed(seed)
+                        if mname == "POMO":
+                            pol = AttentionModelPolicy(env_name=env.name, embed_dim=16, num_encoder_layers=1, num_heads=2, feedforward_hidden=32,
+                                                       normalization="instance", use_graph_context=False)
+                            m = POMO(env, policy=pol, num_augment=A, num_starts=n, augment_fn=fn)
+                        else:
+                            pol = SymNCOPolicy(env_name=env.name, embed_dim=16, num_encoder_layers=1, num_heads=2, feedforward_hidden=32)
+                            m = SymNCO(env, policy=pol, num_augment=A, num_starts=n, augment_fn=fn)
+                        m.eval()
+                        m.log_metrics = lambda out, phase, dataloader_idx=None: cap.update(out=out) or {}
+                        with ac.quiet(), torch.inference_mode():
+                            m.shared_step(batch.clone(), 0, phase)
+                        out = cap["out"]
+                    except Exception as e:
+                        ctx.case(("step", mname, kind, A, phase, seed, "crash"))
+                        ctx.violation(f"model_step:{mname}:crash", f"{mname}.shared_step(phase={phase}) on {ENVN[kind]} raises {type(e).__name__}: {str(e)[:120]}", witness)
+                        continue
+                    ctx.case(("step", mname, kind, A, phase, seed))
+                    ctx.count(f"{mname}.shared_step {ENVN[kind]} {fn} phase={phase}")
+                    if "max_aug_reward" not in out or "best_aug_actions" not in out:
+                        ctx.disagreement("aug: shared_step did not produce max_aug_reward / best_aug_actions", {"keys": sorted(out.keys()), **witness})
+                        continue
+                    mar = out["max_aug_reward"].flatten().tolist()
+                    one_tour = out["best_aug_actions"].dim() == 2 and out["best_aug_actions"].shape[0] == B
+                    if not one_tour:
+                        ctx.violation(f"model_step:{mname}:best_actions_not_one_tour_per_instance",
+                                      f"{mname}.shared_step(phase={phase}): best_aug_actions has shape {tuple(out['best_aug_actions'].shape)} (and "
+                                      f"best_multistart_actions {tuple(out['best_multistart_actions'].shape) if 'best_multistart_actions' in out else None}): "
+                                      "several tours per instance instead of THE tour of the reported max_aug_reward",
+                                      {"best_aug_actions_shape": list(out["best_aug_actions"].shape), "max_aug_reward": mar, **witness})
+                    best = out["best_aug_actions"].reshape(B, -1, out["best_aug_actions"].shape[-1])[:, 0].tolist()
+                    cands = out["actions"].reshape(B, -1, out["actions"].shape[-1]).tolist()  # [B, A*S, L] in some order, all of instance b
+                    lines = [ac.cost_line(insts[b], best[b]) for b in range(B)]
+                    for b in range(B):
+                        lines += [ac.cost_line(insts[b], row) for row in cands[b]]
+                    reps = ctx.driver.ask_many(lines)
+                    K = len(cands[0])
+                    tol = (1 if fn == "dihedral8" else 1e-5 * rl.SCALE * (len(best[0]) + 1))
+                    for b in range(B):
+                        f = parse_fields(reps[b])
+                        obj = int(f["obj"])
+                        if one_tour and f.get("feas") == "0":
+                            ctx.violation(f"model_step:{mname}:best_aug_actions_infeasible",
+                                          f"{mname}.shared_step on {ENVN[kind]}: best_aug_actions of instance {b} is not feasible on the ORIGINAL instance "
+                                          "(Lean Spec: length budget / duplicates)", {"instance_index": b, "best_aug_actions": best[b], **witness})
+                        if one_tour and abs(mar[b] * rl.SCALE + obj) > tol:
+                            ctx.violation(f"model_step:{mname}:max_aug_reward_ne_cost_of_best_aug_actions",
+                                          f"{mname}.shared_step on {ENVN[kind]}: max_aug_reward of instance {b} is {mar[b]:.6f} but best_aug_actions cost "
+                                          f"{-obj / rl.SCALE:.6f} on the ORIGINAL instance", {"instance_index": b, "best_aug_actions": best[b],
+                                                                                             "max_aug_reward": mar[b], "objective_ticks": obj, **witness})
+                        objs = [int(parse_fields(reps[B + b * K + k])["obj"]) for k in range(K)]
+                        feas = [parse_fields(reps[B + b * K + k]).get("feas") != "0" for k in range(K)]
+                        if not all(feas):
+                            ctx.violation(f"model_step:{mname}:candidate_infeasible_on_original",
+                                          f"{mname}.shared_step on {ENVN[kind]}: {feas.count(False)} of the {K} candidate rollouts of instance {b} are "
+                                          "infeasible on the ORIGINAL instance (the policy decoded a non-isometric copy)", {"instance_index": b, **witness})
+                        elif abs(mar[b] * rl.SCALE + min(objs)) > tol:
+                            ctx.violation(f"model_step:{mname}:max_aug_reward_ne_max_over_candidates",
+                                          f"{mname}.shared_step on {ENVN[kind]}: max_aug_reward of instance {b} is not the best of its {K} candidates on the "
+                                          "ORIGINAL instance", {"instance_index": b, "max_aug_reward": mar[b], "best_candidate_ticks": -min(objs), **witness})
+                    ctx.sample({"case": "model shared_step", "model": mname, "env": ENVN[kind], "phase": phase, "A": A, "S": n,
+                                "max_aug_reward[0] (ticks)": mar[0] * rl.SCALE, "objective of best_aug_actions[0] on the original": int(parse_fields(reps[0])["obj"]),
+                                "best_aug_actions[0]": best[0]}, cap=3)
+
+
 def _make_env(kind, n):
     from rl4co.envs import CVRPEnv, OPEnv, TSPEnv
 
@@ -859,9 +948,14 @@ def run_eval(ctx):
                         _eval_once(ctx, env, kind, insts, pol, pname, method, nb, A=ctx.rng.choice([1, 2, 3, 4]),
                                    samples=ctx.rng.choice([2, 3, 5]), solo_greedy=solo)
     _eval_float_envs(ctx)
+    for _ in range(ctx.budget(1, 4)):
+        _check_model_steps(ctx)
 
 
-EVAL_NOTE = ("every evaluator object (and StateAugmentation object) is called three times on different datasets and compared with "
+EVAL_NOTE = ("the models' own val/test paths are covered too: the real POMO.shared_step and SymNCO.shared_step (no Trainer, log_metrics "
+             "replaced by a recorder) on TSP / CVRP / OP (depot in its own key, per-instance budgets) with num_augment 8 (dihedral) and 2 "
+             "(symmetric), num_starts = num_loc, judged by the Lean objective and feasibility on the ORIGINAL instances; "
+             "every evaluator object (and StateAugmentation object) is called three times on different datasets and compared with "
              "fresh objects; OP (per-instance length budgets, some customers out of reach) is part of the exact sweep, and OP / "
              "SVRP datasets with differing per-instance parameters go through a float-stream sweep judged by the real env one "
              "instance at a time; MTVRP cannot go through evaluate_policy (the evaluators call the policy without the env and the "
@@ -874,7 +968,8 @@ EVAL_NOTE = ("every evaluator object (and StateAugmentation object) is called th
 
 register(Unit(
     "C15", "aug_eval", run_eval, drivers=["drv_aug"],
-    lean_modules=(["Rl4co.Props.C15.AugEval"] + (["Rl4co.Props.C15.AugHistory"] if _exists(C15_HIST) else []))
+    lean_modules=(["Rl4co.Props.C15.AugEval"] + (["Rl4co.Props.C15.AugHistory"] if _exists(C15_HIST) else [])
+                  + (["Rl4co.Props.C15.AugKeys"] if _exists(C15_KEYS) else []))
     if _exists(C15_EVAL) else ["Rl4co.Train.Eval"],
     theorems=[
         Theorem("Rl4co.Eval.eval_reports_max", "proved", "AugmentationEval / GreedyMultiStartEval: reported reward of b = reward of the returned actions on the original instance = max over b's K candidates; returned actions are one of b's candidates"),
@@ -894,7 +989,13 @@ register(Unit(
         Theorem("Rl4co.Eval.callObj_attr_counterexample", "proved", "with the lists kept as object attributes the second call returns the first call's rows in front"),
         Theorem("Rl4co.closedLen_rotate", "proved", "Spec sanity: the closed tour length does not depend on the start of the tour"),
         Theorem("Rl4co.closedLen_reverse", "proved", "Spec sanity: for a symmetric matrix the closed tour length is the same in both directions"),
-    ] if _exists(C15_HIST) else []) if _exists(C15_EVAL) else [],
+    ] if _exists(C15_HIST) else []) + ([
+        Theorem("Rl4co.Eval.augTd_isometric", "proved", "an augmentation over `feats` preserves ALL pairwise distances (also across keys, depot ↔ customers) when every coordinate key is in feats"),
+        Theorem("Rl4co.Eval.augTd_depot_counterexample", "proved", "raw batch of a depot env with feats=['locs']: the depot stays, customers move, the depot–customer distance changes"),
+        Theorem("Rl4co.Eval.reset_coord_keys_in_feats", "proved", "obligation (extracted per env): every coordinate key of the reset td of tsp/cvrp/sdvrp/op/pctsp/pdp/mtsp/cvrptw is in the default feats"),
+        Theorem("Rl4co.Eval.models_augment_reset_td", "proved", "obligation (extracted): POMO.shared_step and SymNCO.shared_step reset first and augment the reset td"),
+        Theorem("Rl4co.Eval.shared_step_aug_isometric", "proved", "the augmentation inside POMO / SymNCO val/test steps is isometric on every coordinate key of every env of the table"),
+    ] if _exists(C15_KEYS) else []) if _exists(C15_EVAL) else [],
     assumptions=[EVAL_NOTE] + ([] if _exists(C15_EVAL) else ["no theorem yet: correspondence + spec oracle only"]),
 ))
 
@@ -1315,6 +1416,94 @@ def _check_cache_replication(ctx):
     ctx.count("PrecomputedCache.batchify (B, S) factorisations compared", 16)
 
 
+def _repad(raw, k, width):
+    """instance `k` of a raw scheduling batch with its OPERATION axis cut / zero-padded to `width` columns, the way the generator
+    pads (zero processing times, `pad_mask = True`)"""
+    one = raw[k:k + 1].clone()
+    pt, pm = one["proc_times"], one["pad_mask"]
+    cur = pt.shape[-1]
+    if width <= cur:
+        if not bool(pm[..., width:].all()):
+            raise ValueError("would cut real operations")
+        pt, pm = pt[..., :width], pm[..., :width]
+    else:
+        extra = width - cur
+        pt = torch.cat((pt, torch.zeros(*pt.shape[:-1], extra, dtype=pt.dtype)), -1)
+        pm = torch.cat((pm, torch.ones(*pm.shape[:-1], extra, dtype=torch.bool)), -1)
+    return TensorDict({"start_op_per_job": one["start_op_per_job"], "end_op_per_job": one["end_op_per_job"],
+                       "proc_times": pt, "pad_mask": pm}, batch_size=[1])
+
+
+def _check_padding_widths(ctx, pname, build, ename):
+    """PADDING WIDTH as a batch-composition dimension: the same instance at its own minimal width and re-padded to larger widths
+    (own+1, own+5, 2*own, the generator's n_ops_max), decoded greedy alone at each width and inside mixed batches padded to a
+    longer batch-mate: actions, reward and log-likelihood must agree up to rounding"""
+    import aug_zoo as zoo
+
+    tag = f"{pname}:{ename}"
+    try:
+        env = zoo.make_env(ename)
+        torch.manual_seed(ctx.rng.randrange(1 << 30))
+        pol = build(ename).eval()
+        torch.manual_seed(ctx.rng.randrange(1 << 30))
+        raw = env.generator(batch_size=[6])
+        n_ops = (~raw["pad_mask"]).sum(-1).tolist()
+        seed = ctx.rng.randrange(1 << 30)
+
+        def dec(td_raw):
+            return _decode(pol, env, env.reset(td_raw.clone()), _default_call, seed)
+
+        k = min(range(6), key=lambda j: n_ops[j])  # the shortest instance: most padding next to its batch-mates
+        own = n_ops[k]
+        base = dec(_repad(raw, k, own))
+    except Exception as e:
+        ctx.count(f"padding-width sweep unavailable: {tag}")
+        ctx.note(f"padding-width sweep unavailable {tag}: {type(e).__name__}: {str(e)[:100]}")
+        return
+    ctx.count(f"padding-width sweep {tag}")
+    wit0 = {"policy": pname, "env": ename, "operations_of_the_instance": own, "operations_of_the_pool": n_ops, "torch_seed": seed}
+
+    def compare(other, row, label):
+        a1, a2 = base["actions"][0].tolist(), other["actions"][row].tolist()
+        L = min(len(a1), len(a2))
+        r1, r2 = float(base["reward"][0]), float(other["reward"][row])
+        l1 = None if base["ll"] is None else float(base["ll"][0])
+        l2 = None if other["ll"] is None else float(other["ll"][row])
+        ctx.case((tag, "pad", label, seed))
+        if a1[:L] != a2[:L] or abs(r1 - r2) > 1e-5 * max(1.0, abs(r1)):
+            ctx.violation(_key(tag, "result_depends_on_padding_width"),
+                          f"{pname} on {ename}: the same instance decoded at its own width ({own} operation columns) and {label} gives "
+                          f"different greedy actions / reward", {"composition": label, "actions_own_width": a1, "actions_padded": a2,
+                                                              "reward_own_width": r1, "reward_padded": r2, **wit0})
+        elif l1 is not None and l2 is not None and abs(l1 - l2) > 1e-4 * max(1.0, abs(l1)):
+            ctx.violation(_key(tag, "loglik_depends_on_padding_width"),
+                          f"{pname} on {ename}: same actions and reward but log-likelihood {l1} at its own width vs {l2} {label}",
+                          {"composition": label, "ll_own_width": l1, "ll_padded": l2, **wit0})
+
+    for width in sorted({own + 1, own + 5, 2 * own, raw["pad_mask"].shape[-1]}):
+        try:
+            compare(dec(_repad(raw, k, width)), 0, f"alone, padded to {width} columns")
+            ctx.count("padding widths compared (solo)")
+        except Exception as e:
+            ctx.violation(_key(tag, "crash_depends_on_padding_width"), f"{pname} on {ename}: decoding the instance padded to {width} columns raises "
+                          f"{type(e).__name__}: {str(e)[:80]}", {"width": width, **wit0})
+    # mixed batches: next to longer batch-mates, at the batch's minimal common width and at a larger one
+    mates = sorted(range(6), key=lambda j: -n_ops[j])[:2]
+    for pos in (0, 1, 2):
+        idx = [m for m in mates if m != k][:2]
+        idx.insert(min(pos, len(idx)), k)
+        for width in (max(n_ops[j] for j in idx), max(n_ops[j] for j in idx) + 3):
+            try:
+                batch = torch.cat([_repad(raw, j, width) for j in idx], 0)
+                compare(dec(batch), idx.index(k), f"at position {idx.index(k)} of a batch padded to {width} columns (batch-mates with {[n_ops[j] for j in idx]} operations)")
+                ctx.count("padding widths compared (mixed batch)")
+            except Exception as e:
+                ctx.violation(_key(tag, "crash_depends_on_padding_width"), f"{pname} on {ename}: batch padded to {width} columns raises {type(e).__name__}",
+                              {"width": width, **wit0})
+    ctx.sample({"case": "same instance under different amounts of operation padding", "policy": pname, "env": ename, "own_columns": own,
+                "actions_own_width": base["actions"][0].tolist(), "reward": float(base["reward"][0])}, cap=3)
+
+
 def _check_nar_history(ctx):
     """non-autoregressive (heatmap) decoding over a HISTORY of calls whose (B, S) splits vary with B*S repeated:
     (4,2) → (8,1) → (2,4) → (8,1) → …  Each decoded row is compared with (i) a from-scratch greedy walk over its OWN
@@ -1413,6 +1602,12 @@ def _check_nar_history(ctx):
 def _run_zoo(ctx, names):
     import aug_zoo as zoo
 
+    if "l2d" in names:
+        for _ in range(ctx.budget(2, 6)):
+            for pname, build, envs, _ms in zoo.ZOO:
+                if pname in ("l2d", "l2d-attn"):
+                    for ename in envs:
+                        _check_padding_widths(ctx, pname, build, ename)
     if "nar-heatmap" in names:
         for _ in range(ctx.budget(2, 8)):
             _check_nar_history(ctx)
@@ -1458,7 +1653,9 @@ C14_NOTE = ("the Lean theorems cover (a) the decoding LOOP and the REGROUPING (b
             "gap below ~1e-2 depending on the evaluation chunk size — inside the property's clause 'up to float rounding that does "
             "not flip a selection', documented here, not a violation.  The env-side idle-step law (hypothesis of batch_reward_eq_solo) is "
             "checked on every policy×env, RNG-consuming policies included, by replaying each batch row's actions on its instance alone.  "
-            "NON-AUTOREGRESSIVE policies: the bundled GNN encoders need torch_geometric (not installed); NonAutoregressivePolicy and its bundled "
+            "PADDING WIDTH: for the scheduling policies (L2D on FJSP / JSSP) the same instance is decoded at its own minimal operation width, "
+            "re-padded to own+1, own+5, 2·own and the generator's n_ops_max (zero columns + pad_mask, as the generator pads), alone and in "
+            "mixed batches next to longer batch-mates.  NON-AUTOREGRESSIVE policies: the bundled GNN encoders need torch_geometric (not installed); NonAutoregressivePolicy and its bundled "
             "NonAutoregressiveDecoder are swept with a deterministic hand-written pairwise-MLP heatmap encoder on TSP, greedy and "
             "multistart, over histories of calls whose (B, S) splits vary with B·S repeated, every decoded row compared with a from-scratch "
             "greedy walk over its own instance's heatmap and with its solo decode.  "
@@ -1500,6 +1697,14 @@ if _exists(C14_LAYERS):
         Theorem("Rl4co.Eval.decoderReadsRowZero_not_rowLocal", "proved", "a decoder context that takes a state field from row 0 is not row-local"),
         Theorem("Rl4co.Eval.batch_dim_reductions_known", "proved", "obligation on the extracted scan: every reduction over dim 0 in the nn modules of the bundled policies is a known one (MVMoE gate)"),
         Theorem("Rl4co.Eval.forced_train_sites_known", "proved", "obligation: every site forcing training behaviour (dropout without training=, .train()) is a known, guarded one"),
+    ]
+C14_PAD = "Rl4co/Props/C14/AugPadding.lean"
+if _exists(C14_PAD):
+    C14_MODULES.append("Rl4co.Props.C14.AugPadding")
+    C14_THEOREMS += [
+        Theorem("Rl4co.Eval.maskedAttn_padding_local", "proved", "masked attention (mask before the softmax): numerator and denominator on a real row do not depend on the number or content of masked / padded columns"),
+        Theorem("Rl4co.Eval.hgnnAttn_padding_local", "proved", "HetGNNLayer's attention, in the form extracted from hgnn.py (-inf fill before F.softmax), is padding-local"),
+        Theorem("Rl4co.Eval.maskAfterSoftmax_not_padding_local", "proved", "softmax over all columns then multiply by the mask (un-renormalised): one extra padded column changes the result"),
     ]
 C14_NAR = "Rl4co/Props/C14/AugNar.lean"
 if _exists(C14_NAR):
